@@ -83,7 +83,7 @@ def b_stop(job):
             elif e["e"] == "Exit":
                 e["status"] = 0 if r["res"] in ("sat", "unsat", "unknown") else 1
                 e["sig"] = 0 if r["res"] != "crash" else 6
-                e["san"] = bool(r["san"]); e["det"] = False; e["nerr"] = 0; e["synerr"] = False
+                e["san"] = bool(r["san"]); e["det"] = False; e["nerr"] = 0; e["synerr"] = False; e["site"] = ""
         # drop the get-model event of the baseline (the stop run prints no model)
         clone = [e for e in clone if not (e["e"] == "Cmd" and e["c"] == "get-model")]
         out += clone
